@@ -180,11 +180,14 @@ func ObserveBool(label string, v bool)    { obs(label, strconv.FormatBool(v)) }
 func ObserveBytes(label string, v []byte) { obs(label, "hex:"+hex.EncodeToString(v)) }
 func ObserveStr(label string, v string)   { obs(label, "hex:"+hex.EncodeToString([]byte(v))) }
 func NowNs() int64                        { return time.Now().UnixNano() }
-func At(t int64, f func())                { panic(abortRun{"zzsym.At is not replayable natively"}) }
-func FreezeClock()                        {}
-func FreezeTimers()                       {}
-func SleptNs() int64                      { return 0 }
-func TimeOf(ns int64) time.Time           { return time.Unix(0, ns) }
+
+// At: natively the callback is run by a real timer at the given wall-clock instant.
+func At(t int64, f func())      { time.AfterFunc(time.Until(time.Unix(0, t)), f) }
+func FreezeClock()              {}
+func FreezeTimers()             {}
+func SetClockNs(ns int64)       {}
+func SleptNs() int64            { return 0 }
+func TimeOf(ns int64) time.Time { return time.Unix(0, ns) }
 
 func runOne(c replayCase, fn func()) (res result) {
 	res = result{ID: c.ID, Harness: c.Harness}
